@@ -167,14 +167,14 @@ inline void dump_fin()
       using namespace uncrustify;
       fprintf(f, "O indent_with_tabs=%d pp_indent_with_tabs=%d output_tab_size=%u input_tab_size=%u"
               " align_with_tabs=%d align_keep_tabs=%d sp_before_nl_cont=%d force_tab_after_define=%d"
-              " cmt_convert_tab_to_spaces=%d indent_columns=%d bom=%d html=%d version=%d\n",
+              " cmt_convert_tab_to_spaces=%d indent_columns=%d bom=%d html=%d version=%d inpp=%d\n",
               (int)options::indent_with_tabs(), (int)options::pp_indent_with_tabs(),
               (unsigned)options::output_tab_size(), (unsigned)options::input_tab_size(),
               options::align_with_tabs() ? 1 : 0, options::align_keep_tabs() ? 1 : 0,
               (int)options::sp_before_nl_cont(), options::force_tab_after_define() ? 1 : 0,
               options::cmt_convert_tab_to_spaces() ? 1 : 0, (int)options::indent_columns(),
               cpd.bom ? 1 : 0, (cpd.html_type != tracking_type_e::TT_NONE) ? 1 : 0,
-              options::debug_print_version() ? 1 : 0);
+              options::debug_print_version() ? 1 : 0, (cpd.in_preproc == CT_PREPROC) ? 1 : 0);
    }
    size_t idx = 0;
 
